@@ -823,6 +823,35 @@ def slowreader_kind():
                 nontrivial=lambda l, r: True, classify=lambda l, r: gens.fields(l).get("l", "?"))
 
 
+def udpmrstress_gen(rng, tier):
+    out = []
+    for i in range(budget(tier, 2, 8)):
+        cfg = "U=u;E=0;S=-;R=-:0:0:0;T=1;W=1;D=%d;X=%d" % (rng.choice([2, 4]), 9500 + i)
+        name = gens.raw_name([b"mr%d" % i, rng.choice(VOCAB), b"test"])
+        question = name + b"\0" + struct.pack(">HH", 1, 1)
+        reply = struct.pack(">HHHHHH", 0, 0x8180, 1, 1, 0, 0) + question + b"\xc0\x0c" + struct.pack(">HHIH", 1, 1, 60, 4) + bytes([10, 0, 0, 5])
+        q = struct.pack(">HHHHHH", 0, 0x0100, 1, 0, 0, 0) + question
+        out.append("mr%d cfg=%s g=%d n=%d q=%s up=reply:%s" % (i, cfg, rng.choice([8, 16]), budget(tier, 250, 1500), gens.hx(q), gens.hx(reply)))
+    return out
+
+
+def udpmrstress_oracle(line, res):
+    f = gens.fields(res)
+    if not res.startswith("sent="):
+        return None
+    # (a datagram may be lost on a busy machine: a handful of retries is tolerated, a systematic loss - several per thousand - is not)
+    if f["got"] != f["sent"] or f["bad"] != "0" or int(f.get("retried", "0")) > max(3, int(f["sent"]) * 3 // 1000):
+        return ("multi_routes UDP listener with several threads: %s of %s queries got no response from the address they were sent to "
+                "even at the second attempt, %s needed a second attempt, %s responses with a foreign id"
+                % (int(f["sent"]) - int(f["got"]), f["sent"], f.get("retried", "?"), f["bad"]))
+    return None
+
+
+def udpmrstress_kind():
+    return dict(name="udpmrstress", gen=udpmrstress_gen, oracle=udpmrstress_oracle, model=False, timeout=600, shards=1,
+                nontrivial=lambda l, r: True, classify=lambda l, r: "D" + gens.fields(l).get("cfg", "").split("D=")[-1][:1])
+
+
 def recover_gen(rng, tier):
     """every listener kind: a client bursts through its budget (connections and queries refused at every layer:
     accept, stream, query), pauses until the bucket is full again, and asks once more: the listener must still be
@@ -874,6 +903,9 @@ PROPS["C01"]["rule"] += ("; dohget: the RAW text of the dns parameter of DoH GET
                          "fasthttp listeners, status and response compared with Net/DohGet.v + handle")
 PROPS["C03"]["kinds"].append(slowreader_kind())
 PROPS["C03"]["rule"] += "; slowreader: many pipelined queries on one stream connection read after a pause: one response per query (oracle only)"
+PROPS["C03"]["kinds"].append(udpmrstress_kind())
+PROPS["C03"]["rule"] += "; udpmrstress: wildcard multi_routes UDP listener with 2 / 4 threads, 8 / 16 clients on connected sockets to four local addresses: every query answered from the address it was sent to (oracle only)"
+PROPS["C20"]["kinds"].append(udpmrstress_kind())
 PROPS["C13"]["kinds"].append(slowreader_kind())
 PROPS["C13"]["rule"] += "; slowreader: 600 / 1000 pipelined queries with 6 KiB responses on one tcp / tls / gnet connection read after 1.5 - 2.5 s: one well-framed response per query"
 PROPS["C03"]["kinds"].append(recover_kind())
